@@ -251,6 +251,7 @@ def perm_family():
         [["input", ["a", "b"]], ["output", ["y"]], ["wire", ["w"]], ["gate", "nand", [["U0", ["w", "a", "b"]]]], ["gate", "not", [["U1", ["y", "w"]]]]],
         [["input", ["a", "b"]], ["output", ["y", "z"]], ["gate", "xor", [["U0", ["y", "a", "b", "1'b1"]]]], ["assign", [["z", ("id", "y")]]]],
         [["input", ["a"]], ["output", ["y", "z"]], ["assign", [["y", ("c", "1'b0")]]], ["gate", "or", [["U0", ["z", "a", "y"]]]]],
+        [["input", ["a"]], ["output", ["y", "z"]], ["assign", [["y", ("c", "1'h1")]]], ["assign", [["z", ("c", "1'h0")]]]],
         [["input", ["a", "b"]], ["output", ["y"]], ["wire", ["q"]], ["bb", "ff", "f0", [["clk", "a"], ["d", "b"], ["q", "q"]]], ["gate", "buf", [["U0", ["y", "q"]]]]],
         [["input", ["a", "b"]], ["output", ["y"]], ["wire", ["w", "v"]], ["gate", "and", [["U0", ["w", "a", "b"]]]], ["gate", "nor", [["U1", ["v", "w", "a"]]]],
          ["gate", "xnor", [["U2", ["y", "v", "w", "b"]]]]],
